@@ -360,6 +360,15 @@ func c03Merge(ps []*profile.Profile) (q *profile.Profile, res string, msg string
 	return q, "ok", ""
 }
 
+func c03Compact(p *profile.Profile) (q *profile.Profile, res string) {
+	defer func() {
+		if e := recover(); e != nil {
+			q, res = nil, "panic"
+		}
+	}()
+	return p.Compact(), "ok"
+}
+
 // c03Emit runs Merge on ps and records the case.
 //   input    = ["merge"; [profile dumps]; [kernel relocation symbols per input mapping]]
 //   observed = ["ok"; dump; [shared pointer paths]; inputs-modified; compact-is-identity;
@@ -385,8 +394,9 @@ func c03Emit(c *Ctx, gen string, ps []*profile.Profile, nontrivial bool, tags ..
 		}
 		modified := Render(L(S("merge"), L(ins2...), L(krs2...))) != before
 		d := DumpProfile(q)
-		q2, res2, _ := c03Merge([]*profile.Profile{q})
-		same := res2 == "ok" && Render(DumpProfile(q2)) == Render(d) && Render(DumpProfile(q)) == Render(d)
+		q2, res2 := c03Compact(q)
+		same := res2 == "ok" && q2 != nil && q2 != q && Render(DumpProfile(q2)) == Render(d) && Render(DumpProfile(q)) == Render(d) &&
+			len(c03Shared([]*profile.Profile{q}, q2)) == 0
 		rev := L()
 		if len(ps) >= 2 {
 			rp := make([]*profile.Profile, len(ps))
